@@ -28,10 +28,13 @@ class Inconclusive(Exception):
     pass
 
 
-def java_opts(extra=""):
-    """JAVA_TOOL_OPTIONS for a TLC run: its temporary directories go under our scratch directory, not /tmp."""
+def java_opts(extra="", heap_mb=2048):
+    """JAVA_TOOL_OPTIONS for a TLC run: its temporary directories go under our scratch directory, not /tmp, and its
+    heap is capped (a check starts a dozen TLC processes side by side; the wrapper's default is a quarter of the RAM each)."""
     jt = os.path.join(scratch(), "jtmp")
     os.makedirs(jt, exist_ok=True)
+    if "-Xmx" not in extra:
+        extra = "-Xmx%dm %s" % (heap_mb, extra)
     return ("-Djava.io.tmpdir=%s %s" % (jt, extra)).strip()
 
 
@@ -42,8 +45,42 @@ class ProxyPanic(Exception):
         self.what, self.plan, self.text = what, plan, text
 
 
+class ProxyHang(ProxyPanic):
+    """The scenario can never finish: goroutines are blocked for good inside the proxy's own code (synctest reports a
+    deadlock of the bubble: everything is durably blocked and no timer is pending)."""
+
+
+def _current_plan(out_dir):
+    cur = os.path.join(out_dir, "current")
+    if os.path.exists(cur):
+        pf = os.path.join(out_dir, "plans", open(cur).read().strip() + ".json")
+        if os.path.exists(pf):
+            return json.load(open(pf))
+    return None
+
+
+def classify_hang(out_dir, output):
+    if "deadlock: all goroutines in bubble are blocked" not in output and \
+       "deadlock: main bubble goroutine has exited but blocked goroutines remain" not in output:
+        return None
+    stuck = []
+    for blk in output.split("\n\n"):
+        if not blk.startswith("goroutine ") or "synctest bubble" not in blk.split("\n", 1)[0]:
+            continue
+        frames = re.findall(r"^([\w./\-*()\[\]]+)\(", blk, re.M)
+        frames = [f for f in frames if not f.startswith(("runtime.", "sync.", "internal/", "time.", "context."))]
+        if frames and "kamal-proxy/internal/server" in frames[0]:
+            stuck.append(frames[0].split("kamal-proxy/internal/server.")[-1])
+    if not stuck:
+        return None
+    return ProxyHang("blocked for good in " + ", ".join(sorted(set(stuck))[:4]), _current_plan(out_dir), output[-3000:])
+
+
 def classify_crash(out_dir, output):
     """Decide whether a dead executor is a panic of the proxy (a finding) or a problem of the harness."""
+    h = classify_hang(out_dir, output)
+    if h:
+        return h
     m = re.search(r"^panic: (.*)$", output, re.M)
     fatal = re.search(r"^fatal error: (.*)$", output, re.M)
     if not m and not fatal:
@@ -190,7 +227,7 @@ def validate_traces(trace_files, module="ObsTrace.tla", cfg="ObsTrace.cfg", time
         shutil.copytree(SPEC, wd)
         md = tempfile.mkdtemp(prefix="md-", dir=scratch())
         outp = tf + ".viol.json"
-        e = dict(os.environ, VERIF_TRACE=tf, VERIF_OUT=outp, JAVA_TOOL_OPTIONS=java_opts())
+        e = dict(os.environ, VERIF_TRACE=tf, VERIF_OUT=outp, JAVA_TOOL_OPTIONS=java_opts(heap_mb=3072))
         cmd = ["timeout", str(timeout), "tlc", "-workers", "1", "-metadir", md, "-config", cfg, module]
         p = subprocess.Popen(cmd, cwd=wd, env=e, stdout=subprocess.PIPE, stderr=subprocess.STDOUT, text=True)
         jobs.append((p, tf, outp, wd, md))
@@ -291,10 +328,10 @@ def cfg_with(wd, base_cfg, name, invariants=None, constants=None, drop_symmetry=
     return name
 
 
-def start_tlc(wd, module, cfg, workers=1, timeout=600, extra=None):
+def start_tlc(wd, module, cfg, workers=1, timeout=600, extra=None, heap_mb=2048):
     md = tempfile.mkdtemp(prefix="md-", dir=scratch())
     cmd = ["timeout", str(timeout), "tlc", "-workers", str(workers), "-metadir", md, "-config", cfg] + (extra or []) + [module]
-    p = subprocess.Popen(cmd, cwd=wd, env=dict(os.environ, JAVA_TOOL_OPTIONS=java_opts()), stdout=subprocess.PIPE, stderr=subprocess.STDOUT, text=True)
+    p = subprocess.Popen(cmd, cwd=wd, env=dict(os.environ, JAVA_TOOL_OPTIONS=java_opts(heap_mb=heap_mb)), stdout=subprocess.PIPE, stderr=subprocess.STDOUT, text=True)
     p._md = md
     return p
 
